@@ -241,6 +241,8 @@ func (r *Run) Finish() int {
 	evDir := filepath.Join(Root, "evidence")
 	if d := os.Getenv("VERIF_EVIDENCE_DIR"); d != "" {
 		evDir = d // background sweeps write elsewhere; registered commands never set this
+	} else if os.Getenv("VERIF_ONLY_SCENARIO") != "" {
+		evDir = filepath.Join(Root, "out", "partial") // a development run of one scenario is not the property's evidence
 	}
 	os.MkdirAll(evDir, 0o755)
 	if err := os.WriteFile(filepath.Join(evDir, r.Prop+".json"), b, 0o644); err != nil {
